@@ -595,12 +595,21 @@ def judge(ctx, records, usemin, reduce, label):
         for ci, fu in enumerate(futs):
             res = fu.result()
             ctx.add_tlc(f"GraphTrace[{label}:{ci}]", res)
-            for line in res.output.splitlines():
-                if line.startswith('<<"V"'):
-                    v = tlc.tlaval.parse(line.strip())
+            lines = res.output.splitlines()
+            li = 0
+            while li < len(lines):
+                line = lines[li]
+                li += 1
+                head = line.replace(" ", "")[:5]
+                if head not in ('<<"V"', '<<"T"'):       # TLC prints a wrapped tuple as `<< "V",` + one element per line
+                    continue
+                while not line.rstrip().endswith(">>") and li < len(lines):     # TLC wraps long tuples
+                    line += " " + lines[li].strip()
+                    li += 1
+                v = tlc.tlaval.parse(line.strip())
+                if v[0] == "V":
                     verdicts[(v[1], v[2])] = v[3:]
-                elif line.startswith('<<"T"'):
-                    v = tlc.tlaval.parse(line.strip())
+                else:
                     seen_t[v[1]] = (v[2], v[3])
     if len(seen_t) != len(records):
         raise MachineryError(f"GraphTrace judged {len(seen_t)} of {len(records)} histories")
